@@ -125,11 +125,23 @@ def gen_deck(pop: list[dict]) -> bytes:
     return out.getvalue()
 
 
-def run(tid: str, raw_or_path, history: list[dict]) -> dict:
+def run(tid: str, raw_or_path, history: list[dict], xsd: bool = False) -> dict:
+    """xsd=True (C03 host): every step also logs "xsd" = the XSD monitor's error signatures over all slide and notes-slide parts."""
     import pptx
     prs = pptx.Presentation(io.BytesIO(raw_or_path) if isinstance(raw_or_path, bytes) else raw_or_path)
     lays, lay, mas = layouts_of(prs)
-    steps = [{"a": {"op": "open", "l": 0, "k": 0, "j": 0, "x": 0, "y": 0, "cx": 0, "cy": 0}, "out": "ok", "t": observe(prs), "notes": []}]
+
+    def mon():
+        if not xsd:
+            return []
+        from mbt.monitor import xsd as X
+        out = set()
+        for s in prs.slides:
+            out.update(X.errors(s._element))
+            if s.has_notes_slide:
+                out.update("notes:" + e for e in X.errors(s.notes_slide._element))
+        return sorted(out)
+    steps = [{"a": {"op": "open", "l": 0, "k": 0, "j": 0, "x": 0, "y": 0, "cx": 0, "cy": 0}, "out": "ok", "t": observe(prs), "notes": [], "xsd": mon()}]
     nmas = []
     for a in history:
         a = dict({"l": 0, "k": 0, "j": 0, "x": 0, "y": 0, "cx": 0, "cy": 0}, **a)
@@ -157,5 +169,5 @@ def run(tid: str, raw_or_path, history: list[dict]) -> dict:
             out = "ok"
         except Exception as e:
             out = type(e).__name__ + ":" + str(e)[:100]
-        steps.append({"a": a, "out": out if out == "ok" else out.split(":")[0], "err": out, "t": observe(prs), "notes": notes})
+        steps.append({"a": a, "out": out if out == "ok" else out.split(":")[0], "err": out, "t": observe(prs), "notes": notes, "xsd": mon()})
     return {"id": tid, "lay": lay, "mas": mas, "nmas": nmas, "steps": steps}
